@@ -34,10 +34,10 @@ ASSUMPTIONS = [
 NSHARDS = {"quick": 16, "thorough": 16}
 BUDGET_S = {"quick": 14, "thorough": 300}
 FLOORS = {
-    "quick": {"evaluations": 8000, "distinct": 4000,
-              "counters": {"twin_invocations": 4000, "marked_renders": 4000,
-                           "security_errors": 4000, "async_cases": 1200,
-                           "override_env_cases": 2000}},
+    "quick": {"evaluations": 6000, "distinct": 3000,
+              "counters": {"twin_invocations": 3000, "marked_renders": 3000,
+                           "security_errors": 3000, "async_cases": 800,
+                           "override_env_cases": 1200}},
     "thorough": {"evaluations": 60000, "distinct": 30000,
                  "counters": {"twin_invocations": 30000, "marked_renders": 30000,
                               "security_errors": 30000, "async_cases": 8000,
